@@ -9,7 +9,26 @@ import (
 
 var zstdDecoderPool = zstdpool.NewDecoderPool()
 
+// maxDecompressedSize is the most a frame of the given compressed length may claim to
+// decompress to (or to need as its window). The decoder sizes its output buffer from the
+// frame header alone, so a damaged header of a few hundred bytes of input could otherwise
+// make it allocate gigabytes. Real payloads (protobuf/bincode metadata, rewards) compress
+// by well under 100x; the floor covers tiny, highly repetitive inputs.
+func maxDecompressedSize(compressedLen int) uint64 {
+	return 32<<20 + 1024*uint64(compressedLen)
+}
+
 func DecompressZstd(data []byte) ([]byte, error) {
+	var hdr zstd.Header
+	if err := hdr.Decode(data); err == nil && !hdr.Skippable {
+		limit := maxDecompressedSize(len(data))
+		if hdr.HasFCS && hdr.FrameContentSize > limit {
+			return nil, fmt.Errorf("failed to decompress zstd data: frame of %d bytes claims a content size of %d bytes", len(data), hdr.FrameContentSize)
+		}
+		if !hdr.SingleSegment && hdr.WindowSize > limit {
+			return nil, fmt.Errorf("failed to decompress zstd data: frame of %d bytes claims a window of %d bytes", len(data), hdr.WindowSize)
+		}
+	}
 	dec, err := zstdDecoderPool.Get(nil)
 	if err != nil {
 		return nil, fmt.Errorf("failed to get zstd decoder from pool: %w", err)
